@@ -462,18 +462,31 @@ func guardHolds(p5c *p5, fn *Func, at ast.Node, g guard) bool {
 				return true
 			}
 		}
-		return fn.GuardsAt(at).Holds(func(a *Atom) bool {
+		anySub := func(a *Atom) bool {
 			for _, s := range g.sub {
 				if s.kind != gAny && s.kind != gInRange && s.kind != gDomAssign && s.kind != gNonNilVar && atomMatches(fn, a, s) {
 					return true
 				}
 			}
 			return false
-		})
+		}
+		if fn.GuardsAt(at).Holds(anySub) {
+			return true
+		}
+		return fn.HoldsOnAllPaths(at, anySub)
 	case gInRange:
 		for _, f := range fn.FactsAt(at) {
-			if f.Kind == FactRange && lastSel(f.Range.X) == g.name {
+			if f.Kind != FactRange {
+				continue
+			}
+			if lastSel(f.Range.X) == g.name {
 				return true
+			}
+			// the ranged collection is a local defined once: for _, x := range xs where xs := d.f()
+			if id, ok := ast.Unparen(f.Range.X).(*ast.Ident); ok {
+				if def := fn.SingleDef(fn.Info().ObjectOf(id)); def != nil && lastSel(def) == g.name {
+					return true
+				}
 			}
 		}
 		return false
@@ -567,7 +580,10 @@ func guardHolds(p5c *p5, fn *Func, at ast.Node, g guard) bool {
 		}
 		return p5c.nonNilAt(fn, target, at)
 	}
-	return fn.GuardsAt(at).Holds(func(a *Atom) bool { return atomMatches(fn, a, g) })
+	if fn.GuardsAt(at).Holds(func(a *Atom) bool { return atomMatches(fn, a, g) }) {
+		return true
+	}
+	return fn.HoldsOnAllPaths(at, func(a *Atom) bool { return atomMatches(fn, a, g) })
 }
 
 // ---- rows ---------------------------------------------------------------------------------
@@ -714,7 +730,7 @@ func runRows(prop string) func(p *Prog, r *Report) {
 					if rw.exact != nil {
 						var extra []string
 						for _, a := range fn.GuardsAt(em).AllAtoms() {
-							if a == nil || safeAtom(fn, a) {
+							if a == nil || a.Expanded || safeAtom(fn, a) {
 								continue
 							}
 							allowed := false
